@@ -54,7 +54,8 @@ static struct MHD_Daemon *d;
 struct beh {           /* behaviour for one request */
   int used;
   char f[16];          /* first call: c | r<rid> | no | s<k> */
-  char l[16];          /* final call: r<rid> | no | s<k> */
+  char l[64];          /* calls without upload data after the first one: r<rid> | no | s<k> | c, or a comma separated
+                          list of these (one per such call, the last one repeats) */
   long take[8]; int ntake;    /* -1 = all */
   int ur_n, ur_rid;    /* reply at upload call n (or -1) */
   int us_n, us_k;      /* suspend at upload call n for k rounds */
@@ -66,6 +67,7 @@ struct req {           /* per-request application context */
   int c, r;
   int ncalls, nupload, nfinal;
   int replied, suspended_once_final, suspended_once_first;
+  int interim_pending;      /* a 102 response was accepted: the handler is asked again once it has been sent */
   struct snap snaps[3 + 2 * MAXKV]; int nsnap;
   int upg_pending;
 };
@@ -87,7 +89,7 @@ static struct conn conns[MAXC];
 static void st_fields (struct MHD_Connection *mc)
 {
   printf (" state=%d aware=%d susp=%d", (int) mc->state, (int) mc->rq.client_aware, (int) mc->suspended);
-  if (getenv ("SM_DEBUG")) printf (" eli=%d rbo=%zu rbs=%zu swe=%d disc=%d", (int) mc->event_loop_info, mc->read_buffer_offset, mc->read_buffer_size, (int) mc->stop_with_error, (int) mc->discard_request);
+  if (getenv ("SM_DEBUG")) printf (" eli=%d rbo=%zu rbs=%zu swe=%d disc=%d ka=%d rdcl=%d", (int) mc->event_loop_info, mc->read_buffer_offset, mc->read_buffer_size, (int) mc->stop_with_error, (int) mc->discard_request, (int) mc->keepalive, (int) mc->read_closed);
 }
 static void dump_states (void)
 {
@@ -158,13 +160,17 @@ static ssize_t content_cb (void *cls, uint64_t pos, char *buf, size_t max)
 static void content_free (void *cls) { struct cbctx *x = (struct cbctx *) cls; out ("free-cb rid=%d", x->rid); freecb_count[x->rid]++; free (x); }
 static void buf_free (void *cls) { struct cbctx *x = (struct cbctx *) cls; out ("free-cb rid=%d", x->rid); freecb_count[x->rid]++; free (x->buf); free (x); }
 
+static int conn_index (struct MHD_Connection *mc);
 static void upgrade_cb (void *cls, struct MHD_Connection *connection, void *req_cls,
                         const char *extra_in, size_t extra_in_size, MHD_socket sock,
                         struct MHD_UpgradeResponseHandle *urh)
 {
   struct req *rq = (struct req *) req_cls;
   (void) cls; (void) connection;
-  printf ("upgrade c=%d extra=", rq->c); puthexs (extra_in, extra_in_size); putchar ('\n');
+  if (NULL == rq) { out ("upgrade c=%d r=? (no request context)", conn_index (connection)); return; }
+  printf ("upgrade c=%d r=%d", rq->c, rq->r); st_fields (connection); printf (" extra="); puthexs (extra_in, extra_in_size); putchar ('\n');
+  if (NULL == extra_in && 0 != extra_in_size)
+    out ("protocol-error c=%d r=%d upgrade-handler-given-NULL-with-size-%zu", rq->c, rq->r, extra_in_size);
   conns[rq->c].urh = urh; conns[rq->c].usock = sock; conns[rq->c].upgraded = 1;
 }
 
@@ -334,7 +340,7 @@ static enum MHD_Result do_reply (struct MHD_Connection *mc, struct req *rq, int 
   q = MHD_queue_response (mc, resps[rid].code, m);
   out ("queued c=%d r=%d rid=%d code=%u -> %d", rq->c, rq->r, rid, resps[rid].code, (int) q);
   MHD_destroy_response (m);
-  if (MHD_YES == q) rq->replied = 1;
+  if (MHD_YES == q) { if (102 == resps[rid].code) rq->interim_pending = 1; else rq->replied = 1; }
   return q;
 }
 
@@ -372,6 +378,7 @@ static enum MHD_Result handler_inner (void *cls, struct MHD_Connection *mc, cons
   }
   else phase = (0 != *upload_data_size) ? "upload" : "final";
   if (rq->replied) printf ("protocol-error c=%d r=%d handler-called-after-reply\n", rq->c, rq->r);
+  if (rq->interim_pending) { rq->interim_pending = 0; out ("interim-done c=%d r=%d", rq->c, rq->r); }
   check_snaps (rq, phase);
   rq->ncalls++;
   b = (rq->r < MAXR && conns[c].beh[rq->r].used) ? &conns[c].beh[rq->r] : &defbeh;
@@ -417,14 +424,19 @@ static enum MHD_Result handler_inner (void *cls, struct MHD_Connection *mc, cons
     if (b->us_n == n) do_suspend (mc, rq, b->us_k);
     return MHD_YES;
   }
-  /* final */
-  rq->nfinal++;
-  if (b->l[0] == 's' && !rq->suspended_once_final)
-  { rq->suspended_once_final = 1; do_suspend (mc, rq, atoi (b->l + 1)); return MHD_YES; }
-  if (!strcmp (b->l, "no")) return MHD_NO;
-  if (!strcmp (b->l, "c")) return MHD_YES;   /* never replies */
-  if (b->l[0] == 'r') return do_reply (mc, rq, parse_rid (b->l)) == MHD_YES ? MHD_YES : MHD_NO;
-  return do_reply (mc, rq, 0) == MHD_YES ? MHD_YES : MHD_NO;
+  /* final (any call without upload data after the first one) */
+  {
+    char act[16]; const char *s = b->l, *e; int k = rq->nfinal++, last;
+    for (;;) { e = strchr (s, ','); if (NULL == e || 0 == k) break; s = e + 1; k--; }
+    last = (NULL == e);
+    { size_t n = e ? (size_t) (e - s) : strlen (s); if (n >= sizeof(act)) n = sizeof(act) - 1; memcpy (act, s, n); act[n] = 0; }
+    if (act[0] == 's' && !(last && rq->suspended_once_final))
+    { if (last) rq->suspended_once_final = 1; do_suspend (mc, rq, atoi (act + 1)); return MHD_YES; }
+    if (!strcmp (act, "no")) return MHD_NO;
+    if (!strcmp (act, "c")) return MHD_YES;   /* no reply in this call */
+    if (act[0] == 'r') return do_reply (mc, rq, parse_rid (act)) == MHD_YES ? MHD_YES : MHD_NO;
+    return do_reply (mc, rq, 0) == MHD_YES ? MHD_YES : MHD_NO;
+  }
 }
 
 static enum MHD_Result handler (void *cls, struct MHD_Connection *mc, const char *url, const char *method,
@@ -674,7 +686,8 @@ int main (void)
       q = MHD_queue_response (conns[a].mc, resps[b].code, m);
       out ("queued c=%d r=%d rid=%d code=%u -> %d", (int) a, conns[a].nreq - 1, (int) b, resps[b].code, (int) q);
       MHD_destroy_response (m);
-      if (MHD_YES == q && conns[a].used && conns[a].cur) conns[a].cur->replied = 1;
+      if (MHD_YES == q && conns[a].used && conns[a].cur)
+      { if (102 == resps[b].code) conns[a].cur->interim_pending = 1; else conns[a].cur->replied = 1; }
       continue; }
     if (!strcmp (op, "fail-calloc") && l.n >= 2) { calloc_fail_in = atol (l.w[1]); out ("ok"); continue; }
     if (!strcmp (op, "fail-epoll-add") && l.n >= 2) { epoll_add_fail_in = atol (l.w[1]); out ("ok"); continue; }
